@@ -208,11 +208,17 @@ func (h *HyperLogLog32) UnmarshalBinary(b []byte) error {
 	if err != nil {
 		return err
 	}
+	if h.p < 4 || w32 < h.p {
+		return errors.New("card: precision out of range")
+	}
 	h.m = uint32(1) << h.p
 	h.register = h.register[:0]
 	err = dec.Decode(&h.register)
 	if err != nil {
 		return err
+	}
+	if uint64(len(h.register)) != uint64(h.m) {
+		return errors.New("card: mismatched register length")
 	}
 	return nil
 }
